@@ -868,7 +868,7 @@ def two_step_cases(arg):
 # text of a statement (line comment, docstring, parentheses), then a structural edit of an enclosing block on the SAME live
 # tree.  After every step everything outside the affected element is byte-identical.
 
-ACC_COMMENTS = ['the current state of the world, explained at length', 'x', '  # full one', None]
+ACC_COMMENTS = ['the current state of the world, explained at length', 'x', '  # full one', None, '']
 
 
 def _fill_caches(root, f):
@@ -972,6 +972,18 @@ def run_history(src, hist):
             'pkind': type(owner).__name__, 'field': fld, 'idx': idx, 'code': 'zz = 9  # new1' if hist['edit'] == 'replace' else None,
             'trivia': hist['trivia'], 'options': {}}
     it2 = run_edit(src2, edit, root=root)
+    # the same structural edit on a FRESH parse of the same source (nothing cached) must give the same text: what the live tree
+    # remembers from before the accessor may not influence which text an edit removes
+    it3 = run_edit(src2, edit)
+    if it2['outcome'].split(':')[0] != 'raised' and it3['outcome'].split(':')[0] != 'raised' and \
+            (it2.get('after'), it2.get('cut')) != (it3.get('after'), it3.get('cut')):
+        item['violations'] = [{'cls': 'live-vs-fresh-differs', 'what': f'{hist["edit"]} of the enclosing statement after a {acc[0]} accessor gives a '
+                               'different text on the live tree than on a fresh parse of the same source', 'detail':
+                               {'live': [it2.get('after'), it2.get('cut')], 'fresh': [it3.get('after'), it3.get('cut')]}}]
+        item['outcome'] = 'violation'
+        item['after'] = it2.get('after')
+        item['field'] = edit['pkind'] + '.' + fld
+        return item
     item['outcome'] = it2['outcome']
     item['violations'] = it2['violations']
     item['bad_spans'] = it2.get('bad_spans', [])
